@@ -3,7 +3,7 @@ trip (C18), network edit histories (C14) and duplicate detection (C15).  Lines a
 reactions by encoders written from the format descriptions, decoded by the real code through
 Network(filelist=..., fileformats=...), and compared field by field."""
 from __future__ import annotations
-import os, random, tempfile, shutil, logging, itertools, io, contextlib
+import os, re, random, tempfile, shutil, logging, itertools, io, contextlib
 from collections import Counter
 
 logging.disable(logging.CRITICAL)
@@ -335,6 +335,10 @@ def check_roundtrip(tier, seed):
         sig = parts[0] + (":" + parts[1].strip().replace(" ", "-") if parts[0].endswith("read-raises") and len(parts) > 2 else "")
         if parts[0].endswith("read-raises") and len(parts) > 2:
             sig += ":" + parts[2].strip().split()[0]
+        if parts[0].endswith("rate-law") or parts[0].endswith("type-code"):
+            m_ = re.search(r"source format (\w+) type (\d+)|(\w+) code (\S+) is", what)
+            if m_:
+                sig += ":" + ":".join(x for x in m_.groups() if x)
         viol.append({"property": "C18", "what": what, "signature": f"C18:{sig}"})
     rnd = random.Random(18 + seed)
     for fmt in ["kida", "umist", "leeds", "naunet"]:
@@ -361,7 +365,22 @@ def check_roundtrip(tier, seed):
                 if len(back.reaction_list) != len(cur.reaction_list):
                     V(f"cycle{cycle}-count: {len(back.reaction_list)} != {len(cur.reaction_list)} (source format {fmt})")
                     break
+                if cycle == 1 and len(ars) == len(back.reaction_list):
+                    # the type code written for a reaction is the one the source format's keyword / formula number stands for
+                    for ar, y in zip(ars, back.reaction_list):
+                        et = expected_type(fmt, ar.code)
+                        if et is not None and int(y.reaction_type) != et:
+                            V(f"cycle1-type-code: {fmt} code {ar.code} is exchanged as type {int(y.reaction_type)}, its type is {et}")
+                from .native_rates import eval_c, CONDITIONS
                 for x, y in zip(cur.reaction_list, back.reaction_list):
+                    # the rate law survives: the re-read reaction evaluates to the same coefficient (printed precision of alpha..gamma)
+                    try:
+                        tx, ty = x.rateexpr(), y.rateexpr()
+                        vx, vy = eval_c(tx, CONDITIONS[0]), eval_c(ty, CONDITIONS[0])
+                        if abs(vx - vy) > 2e-3 * max(abs(vx), abs(vy)):
+                            V(f"cycle{cycle}-rate-law: source format {fmt} type {int(x.reaction_type)}: {tx!r} = {vx:.6g} before, {ty!r} = {vy:.6g} after the write/read cycle")
+                    except Exception:
+                        pass
                     if names(x.reactants) != names(y.reactants) or names(x.products) != names(y.products):
                         V(f"cycle{cycle}-species: {x:minimal} read back as {y:minimal}")
                     if int(x.reaction_type) != int(y.reaction_type) or x.idxfromfile != y.idxfromfile:
@@ -402,6 +421,34 @@ def check_roundtrip(tier, seed):
                 V(f"export-overwrite-stale: reactions.naunet holds {nlines} reactions after re-export, the network has {len(net.reaction_list)}")
     finally:
         shutil.rmtree(d, ignore_errors=True)
+    # the exported project file carries the species data under the species' own names (what `naunet render` looks them up by)
+    fresh()
+    try:
+        import tomlkit
+        from naunet.configuration import NetworkConfiguration
+        from naunet.reactions.reaction import Reaction
+        from naunet.reactiontype import ReactionType as RT
+        from naunet import chemistrydata
+        chemistrydata.update_binding_energy({"#CO": 1300.0, "#CH3OH": 4321.5})
+        chemistrydata.update_photon_yield({"#CO": 0.02})
+        net = Network([Reaction(["CO"], ["#CO"], alpha=1.0, reaction_type=RT.GRAIN_FREEZE), Reaction(["#CO"], ["CO"], alpha=1.0, reaction_type=RT.GRAIN_DESORB_THERMAL),
+                       Reaction(["CH3OH"], ["#CH3OH"], alpha=1.0, reaction_type=RT.GRAIN_FREEZE), Reaction(["#H2O"], ["H2O"], alpha=1.0, reaction_type=RT.GRAIN_DESORB_THERMAL)],
+                      rate_modifier={2: "1.5e-10"}, ode_modifier={"CO": {"factors": ["-fx"], "reactants": [["CO"]]}})
+        cfg = tomlkit.loads(NetworkConfiguration("p", net).content)
+        sp = cfg["chemistry"]["species"]
+        cases += 1
+        want_eb = {"#CO": 1300.0, "#CH3OH": 4321.5, "#H2O": chemistrydata.rate12_binding_energy.get("H2O")}
+        got_eb = {k: float(v) for k, v in sp["binding_energy"].items()}
+        if got_eb != want_eb:
+            V(f"export-config-binding-energy: project file holds {got_eb}, the network's ice species have {want_eb}")
+        got_y = {k: float(v) for k, v in sp["photon_yield"].items()}
+        if got_y != {"#CO": 0.02, "#CH3OH": 0.0, "#H2O": 0.0}:
+            V(f"export-config-photon-yield: project file holds {got_y}")
+        if {str(k): str(v) for k, v in cfg["chemistry"]["rate_modifier"].items()} != {"2": "1.5e-10"} or \
+                {k: {kk: [list(x) if not isinstance(x, str) else str(x) for x in vv] for kk, vv in v.items()} for k, v in cfg["chemistry"]["ode_modifier"].items()} != {"CO": {"factors": ["-fx"], "reactants": [["CO"]]}}:
+            V(f"export-config-modifiers: {dict(cfg['chemistry']['rate_modifier'])} / {dict(cfg['chemistry']['ode_modifier'])}")
+    except Exception as e:
+        V(f"export-config-raises: {type(e).__name__}: {e}")
     fresh()
     return cases, viol
 
